@@ -16,7 +16,8 @@ from hv.props.cp_common import CPRun, cp_case, edge_objects, env_flag, view
 ID = "C20"
 RULE = ("Three campaigns. counters: G-sim files (.json/.json.gz, with metadata/flow/instant/Trace entries) through "
         "generate_trace_with_counters (flags, suffix, ranks). overlay: graphs of the C08 family through "
-        "overlay_critical_path_analysis x only_show_critical_events x show_all_edges x CRITICAL_PATH_SHOW_ZERO_WEIGHT_LAUNCH_EDGE. "
+        "overlay_critical_path_analysis x only_show_critical_events x show_all_edges x CRITICAL_PATH_SHOW_ZERO_WEIGHT_LAUNCH_EDGE, as a "
+        "sequence of 1-3 writes (overlays and counter files) from ONE TraceAnalysis object. "
         "file_io: write_trace/read_trace round trips in both formats, update_trace_rank with ranks 0..10^6 (files with and without "
         "distributedInfo) and create_rank_to_trace_dict. Oracle: the first n output events equal the source list element-wise "
         "(overlay: after removing the 'critical' marker), appended events are only counters / flow events, markers exactly on "
@@ -88,99 +89,140 @@ def counters_case(draw):
 
 
 # ---- overlay ----------------------------------------------------------------------------------
+def _validate_overlay(run, g, src, p, out, classes) -> int:
+    src_events = src["traceEvents"]
+    require(isinstance(out, str) and os.path.exists(out), "overlay:file_written", repr(out))
+    require(os.path.basename(out) == "overlaid_critical_path_" + os.path.basename(run.files[run.rank]), "overlay:file_name", out)
+    data = read_any(out)
+    crit_events = {int(x) for x in g.critical_path_events_set}
+    nodes = g.node_list
+    all_edges = [e for _, _, e, _ in edge_objects(g)]
+    if p["all_edges"] and not p["only_critical"]:
+        drawn = [e for e in all_edges if p["show_zero"] or not (e.type.name == "KERNEL_LAUNCH_DELAY" and e.weight == 0)]
+    else:
+        drawn = list(g.critical_path_edges_set)
+    events = data["traceEvents"]
+    flows = [e for e in events if e.get("ph") in ("s", "f") and e.get("name") == "critical_path"]
+    body = events[: len(events) - len(flows)]
+    require(events[len(body):] == flows, "overlay:flow_events_are_appended_last", lambda: str(events[-3:]))
+
+    def strip(e):
+        e = copy.deepcopy(e)
+        if isinstance(e.get("args"), dict):
+            e["args"].pop("critical", None)
+        return e
+
+    if not p["only_critical"]:
+        require(len(body) == len(src_events), "overlay:event_count", lambda: f"{len(body)} vs {len(src_events)}")
+        got_marked = set()
+        for i, (a, b) in enumerate(zip(src_events, body)):
+            require(strip(b) == a, "overlay:source_event_changed", lambda: f"event {i}: {a} vs {b}")
+            if isinstance(b.get("args"), dict) and b["args"].get("critical") == 1:
+                got_marked.add(i)
+        require(got_marked == crit_events, "overlay:markers_exactly_on_critical_events",
+                lambda: f"{sorted(got_marked)} vs {sorted(crit_events)}")
+        classes.append("all_events_kept")
+    else:
+        want_body = []
+        for i, e in enumerate(src_events):
+            if e.get("ph") != "X" or e.get("cat", "") in ("user_annotation", "python_function") or i in crit_events:
+                want_body.append((i, e))
+        require(len(body) == len(want_body), "overlay:filtered_event_count", lambda: f"{len(body)} vs {len(want_body)}")
+        for (i, a), b in zip(want_body, body):
+            require(strip(b) == a, "overlay:filtered_event_changed_or_reordered", lambda: f"event {i}: {a} vs {b}")
+            is_marked = isinstance(b.get("args"), dict) and b["args"].get("critical") == 1
+            require(is_marked == (i in crit_events), "overlay:markers_exactly_on_critical_events", lambda: f"event {i}")
+        classes.append("only_critical_events")
+    require(len(flows) == 2 * len(drawn), "overlay:one_flow_pair_per_drawn_edge", lambda: f"{len(flows)} flow events, {len(drawn)} edges")
+    by_id: Dict[Any, List[Dict[str, Any]]] = {}
+    for f in flows:
+        by_id.setdefault(f["id"], []).append(f)
+    want_pairs = Counter()
+    for e in drawn:
+        a, b = src_events[int(nodes[e.begin].ev_idx)], src_events[int(nodes[e.end].ev_idx)]
+        want_pairs[(a["pid"], a["tid"], b["pid"], b["tid"], e.type.value, int(e.weight), e in g.critical_path_edges_set)] += 1
+    got_pairs = Counter()
+    for fid, pair in by_id.items():
+        require(len(pair) == 2 and {x["ph"] for x in pair} == {"s", "f"}, "overlay:flow_pair_shape", lambda: str(pair))
+        s_ = next(x for x in pair if x["ph"] == "s")
+        f_ = next(x for x in pair if x["ph"] == "f")
+        require(s_["cat"] == f_["cat"] and s_["ts"] <= f_["ts"], "overlay:flow_pair_consistent", lambda: str(pair))
+        got_pairs[(s_["pid"], s_["tid"], f_["pid"], f_["tid"], s_["cat"], int(s_["args"]["weight"]), bool(s_["args"]["critical"]))] += 1
+    require(got_pairs == want_pairs, "overlay:flows_on_threads_of_edge_events",
+            lambda: f"missing {list((want_pairs - got_pairs).elements())[:4]} extra {list((got_pairs - want_pairs).elements())[:4]}")
+    for k in src:
+        if k != "traceEvents":
+            require(data.get(k) == src[k], "overlay:metadata_preserved", lambda: f"{k}")
+    if p["all_edges"] and not p["only_critical"]:
+        classes.append("all_edges_drawn")
+    if p["show_zero"]:
+        classes.append("show_zero_weight_launch_edges")
+    if any(e.type.name == "KERNEL_LAUNCH_DELAY" and e.weight == 0 for e in all_edges):
+        classes.append("has_zero_weight_launch_edge")
+    return len(flows)
+
+
+def _validate_counters_file(run, src, p, classes) -> int:
+    suffix = p["suffix"] or "_with_counters"
+    out = run.files[run.rank].replace(".json", f"{suffix}.json")
+    if not os.path.exists(out):
+        classes.append("no_counter_series_for_rank")
+        return 0
+    data = read_any(out)
+    n = len(src["traceEvents"])
+    require(len(data["traceEvents"]) >= n, "counters:events_dropped", lambda: f"{len(data['traceEvents'])} < {n}")
+    for i, (a, b) in enumerate(zip(src["traceEvents"], data["traceEvents"][:n])):
+        require(a == b, "counters:source_event_changed", lambda: f"event {i}: {a} vs {b}")
+    added = data["traceEvents"][n:]
+    require(all(e.get("ph") == "C" for e in added), "counters:only_counter_events_appended", lambda: str(added[:3]))
+    os.remove(out)
+    return len(added)
+
+
 def check_overlay(case: Dict[str, Any]) -> CaseInfo:
-    p = case["overlay"]
+    """A sequence of 1-3 writes from ONE TraceAnalysis object: every written file must preserve the source."""
+    from hta.trace_analysis import TimeSeriesTypes
+
+    ops = case["overlay"] if isinstance(case["overlay"], list) else [dict(case["overlay"], kind="overlay")]
     classes: List[str] = []
+    appended = 0
     with scratch_dir() as d:
         run = CPRun(case, d)
         g = run.graph
         src = file_dict(next(r for r in case["ranks"] if r["rank"] == run.rank), len(case["ranks"]))
-        src_events = src["traceEvents"]
         outdir = os.path.join(d, "overlay_out")
-        with env_flag("CRITICAL_PATH_SHOW_ZERO_WEIGHT_LAUNCH_EDGE", p["show_zero"]):
-            out = hta_call("overlay_critical_path_analysis", lambda: run.ta.overlay_critical_path_analysis(
-                run.rank, g, outdir, only_show_critical_events=p["only_critical"], show_all_edges=p["all_edges"]))
-        require(isinstance(out, str) and os.path.exists(out), "overlay:file_written", repr(out))
-        require(os.path.basename(out) == "overlaid_critical_path_" + os.path.basename(run.files[run.rank]), "overlay:file_name", out)
-        data = read_any(out)
-        crit_events = {int(x) for x in g.critical_path_events_set}
-        nodes = g.node_list
-        # which edges are drawn
-        all_edges = [e for _, _, e, _ in edge_objects(g)]
-        if p["all_edges"] and not p["only_critical"]:
-            drawn = [e for e in all_edges if p["show_zero"] or not (e.type.name == "KERNEL_LAUNCH_DELAY" and e.weight == 0)]
-        else:
-            drawn = list(g.critical_path_edges_set)
-        events = data["traceEvents"]
-        flows = [e for e in events if e.get("ph") in ("s", "f") and e.get("name") == "critical_path"]
-        body = events[: len(events) - len(flows)]
-        require(events[len(body):] == flows, "overlay:flow_events_are_appended_last", lambda: str(events[-3:]))
-
-        def strip(e):
-            e = copy.deepcopy(e)
-            if isinstance(e.get("args"), dict):
-                e["args"].pop("critical", None)
-            return e
-
-        marked = {i for i, e in enumerate(src_events)}  # placeholder to keep names short
-        if not p["only_critical"]:
-            require(len(body) == len(src_events), "overlay:event_count", lambda: f"{len(body)} vs {len(src_events)}")
-            got_marked = set()
-            for i, (a, b) in enumerate(zip(src_events, body)):
-                require(strip(b) == a, "overlay:source_event_changed", lambda: f"event {i}: {a} vs {b}")
-                if isinstance(b.get("args"), dict) and b["args"].get("critical") == 1:
-                    got_marked.add(i)
-            require(got_marked == crit_events, "overlay:markers_exactly_on_critical_events",
-                    lambda: f"{sorted(got_marked)} vs {sorted(crit_events)}")
-            classes.append("all_events_kept")
-        else:
-            want_body = []
-            for i, e in enumerate(src_events):
-                if e.get("ph") != "X" or e.get("cat", "") in ("user_annotation", "python_function") or i in crit_events:
-                    want_body.append((i, e))
-            require(len(body) == len(want_body), "overlay:filtered_event_count", lambda: f"{len(body)} vs {len(want_body)}")
-            for (i, a), b in zip(want_body, body):
-                require(strip(b) == a, "overlay:filtered_event_changed_or_reordered", lambda: f"event {i}: {a} vs {b}")
-                is_marked = isinstance(b.get("args"), dict) and b["args"].get("critical") == 1
-                require(is_marked == (i in crit_events), "overlay:markers_exactly_on_critical_events", lambda: f"event {i}")
-            classes.append("only_critical_events")
-        # flow events: one s + one f per drawn edge
-        require(len(flows) == 2 * len(drawn), "overlay:one_flow_pair_per_drawn_edge", lambda: f"{len(flows)} flow events, {len(drawn)} edges")
-        by_id: Dict[Any, List[Dict[str, Any]]] = {}
-        for f in flows:
-            by_id.setdefault(f["id"], []).append(f)
-        want_pairs = Counter()
-        for e in drawn:
-            a, b = src_events[int(nodes[e.begin].ev_idx)], src_events[int(nodes[e.end].ev_idx)]
-            want_pairs[(a["pid"], a["tid"], b["pid"], b["tid"], e.type.value, int(e.weight), e in g.critical_path_edges_set)] += 1
-        got_pairs = Counter()
-        for fid, pair in by_id.items():
-            require(len(pair) == 2 and {x["ph"] for x in pair} == {"s", "f"}, "overlay:flow_pair_shape", lambda: str(pair))
-            s_ = next(x for x in pair if x["ph"] == "s")
-            f_ = next(x for x in pair if x["ph"] == "f")
-            require(s_["cat"] == f_["cat"] and s_["ts"] <= f_["ts"], "overlay:flow_pair_consistent", lambda: str(pair))
-            got_pairs[(s_["pid"], s_["tid"], f_["pid"], f_["tid"], s_["cat"], int(s_["args"]["weight"]), bool(s_["args"]["critical"]))] += 1
-        require(got_pairs == want_pairs, "overlay:flows_on_threads_of_edge_events",
-                lambda: f"missing {list((want_pairs - got_pairs).elements())[:4]} extra {list((got_pairs - want_pairs).elements())[:4]}")
-        for k in src:
-            if k != "traceEvents":
-                require(data.get(k) == src[k], "overlay:metadata_preserved", lambda: f"{k}")
-        noncomplete = sum(1 for e in src_events if e.get("ph") != "X")
-        if p["all_edges"] and not p["only_critical"]:
-            classes.append("all_edges_drawn")
-        if p["show_zero"]:
-            classes.append("show_zero_weight_launch_edges")
-        if any(e.type.name == "KERNEL_LAUNCH_DELAY" and e.weight == 0 for e in all_edges):
-            classes.append("has_zero_weight_launch_edge")
-        nontrivial = noncomplete >= 3 and len(flows) > 0
+        for n, p in enumerate(ops):
+            if p["kind"] == "overlay":
+                with env_flag("CRITICAL_PATH_SHOW_ZERO_WEIGHT_LAUNCH_EDGE", p["show_zero"]):
+                    out = hta_call("overlay_critical_path_analysis", lambda: run.ta.overlay_critical_path_analysis(
+                        run.rank, g, outdir, only_show_critical_events=p["only_critical"], show_all_edges=p["all_edges"]))
+                appended += _validate_overlay(run, g, src, p, out, classes)
+            else:
+                flag = {"both": None, "queue": TimeSeriesTypes.QUEUE_LENGTH, "bw": TimeSeriesTypes.MEMCPY_BANDWIDTH}[p["series"]]
+                hta_call("generate_trace_with_counters", lambda: run.ta.generate_trace_with_counters(
+                    time_series=flag, ranks=[run.rank], output_suffix=p["suffix"]))
+                appended += _validate_counters_file(run, src, p, classes)
+            if n > 0:
+                classes.append("second_write_from_same_object")
+        noncomplete = sum(1 for e in src["traceEvents"] if e.get("ph") != "X")
+        nontrivial = noncomplete >= 3 and appended > 0
     return CaseInfo(nontrivial=nontrivial, classes=classes)
 
 
 @st.composite
 def overlay_case(draw):
     case = draw(cp_case())
-    case["overlay"] = {"only_critical": draw(st.sampled_from([False, False, True])), "all_edges": draw(st.sampled_from([True, False])),
-                       "show_zero": draw(st.sampled_from([False, True]))}
+    ops = []
+    for _ in range(draw(st.sampled_from([1, 2, 2, 3]))):
+        if draw(st.sampled_from(["overlay", "overlay", "counters"])) == "overlay":
+            ops.append({"kind": "overlay", "only_critical": draw(st.sampled_from([False, False, True])),
+                        "all_edges": draw(st.sampled_from([True, False])), "show_zero": draw(st.sampled_from([False, True]))})
+        else:
+            ops.append({"kind": "counters", "series": draw(st.sampled_from(["both", "queue", "bw"])),
+                        "suffix": draw(st.sampled_from(["_with_counters", "_x"]))})
+    if not any(o["kind"] == "overlay" for o in ops):
+        ops.append({"kind": "overlay", "only_critical": False, "all_edges": True, "show_zero": False})
+    case["overlay"] = ops
     return case
 
 
@@ -252,7 +294,7 @@ def campaigns(tier: str) -> List[Campaign]:
                  sample_view=lambda c: {"params": c["params"], "n_events": [len(r["events"]) for r in c["ranks"]]}),
         Campaign("overlay", overlay_case(), check_overlay, quick=240, thorough=8000, quick_shards=8,
                  required_classes={"all_events_kept": 0.3, "only_critical_events": 0.1, "all_edges_drawn": 0.15,
-                                   "show_zero_weight_launch_edges": 0.2},
+                                   "show_zero_weight_launch_edges": 0.2, "second_write_from_same_object": 0.3},
                  sample_view=lambda c: {**view(c), "overlay": c["overlay"]}),
         Campaign("file_io", file_io_case(), check_file_io, quick=240, thorough=8000, quick_shards=4,
                  required_classes={"rank_updated": 0.4, "discovery": 0.3, "no_distributed_info": 0.15},
